@@ -150,6 +150,7 @@ var c04Strings = []string{
 	"a && ", "&& a", "a ||", "!", "a !b", "a ! b", "(a", "a)", "()", "a()", "abs(a))", "abs((a)", "@.a", "$.a", "@a", "$a.b", "a.$", "a.@", "*.*", "**", "a.**", "a[**]", "a[*]]", "[[*]]", "a[]b", "a[] b",
 	"a[?b", "a[?]", "a[?b]]", "a[:]", "a[::]", "a[:::]", "a[1:2:3:4]", "a[1 2]", "a[1,2]", "a[-]", "a[--1]", "a[1-]", "a[1:-]", "a[9999999999999999999]", "a[:9999999999999999999]",
 	"&a", "abs(&a)", "sort_by(a, &b)", "sort_by(a, &)", "sort_by(&a, b)", "map(&a, b)", "map(a, &b)", "a == b == c", "a < b < c", "-a", "--a", "- a", "+a", "a - -b", "a -b", "a-b", "a -1", "a-1", "a - 1",
+	"'\ufffd'", "\"\ufffd\"", "`\"\ufffd\"`", "a == '\ufffd'", "`[1]]`", "`{\"a\":1}}`", "`null]`", "`1]`", "`[1]] [2`", "`[1] [2]`", "`[1],`", "`1}`",
 	"a × b", "a ÷ b", "a − b", "a × ", "\u00a0a", "a\u2003b", "a\tb", "a\x00", "\xff", "a\xffb", "'\xff'", "\"\xff\"", "`\"\xff\"`",
 }
 
@@ -167,4 +168,36 @@ func H_C04_strings() {
 	}
 	vrtKnown("C04-F1", knownSplitWildcard(expr))
 	c04Agree(expr, cerr, ec)
+}
+
+var c04JSONTokens = []string{"[", "]", "{", "}", ",", ":", "1", "-0", "1.5", "\"a\"", "null", "true", "false", " ", "01", "\"", "1e", "[]", "{}"}
+
+// H_C04_json: JSON literals made of up to K JSON tokens: Compile accepts the
+// literal exactly when the text between the backticks is one JSON value.
+func H_C04_json() {
+	k := 3
+	if vrtTier() == 1 {
+		k = 4
+	}
+	n := 1 + vrtChoose("n", k)
+	text := ""
+	for i := 0; i < n; i++ {
+		text += c04JSONTokens[vrtChoose("tok", len(c04JSONTokens))]
+	}
+	expr := "`" + text + "`"
+	vrtNote("template:" + expr)
+	_, cerr := Compile(expr)
+	want, ok := refDecodeJSON(text)
+	if ok {
+		vrtAssert(cerr == nil, "a JSON literal holding a valid JSON text is rejected")
+		if cerr == nil {
+			got, err := Search(expr, nil)
+			vrtAssert(err == nil && refEqual(got, want), "JSON literal evaluates to a different value")
+		}
+	} else {
+		vrtAssert(cerr != nil, "a JSON literal holding malformed JSON is accepted")
+		if cerr != nil {
+			vrtAssert(ecOfError(cerr) == ecSyntax, "malformed JSON literal must be a syntax error")
+		}
+	}
 }
